@@ -195,13 +195,21 @@ func (fc *FuncContract) freshOnlyFrame() bool {
 // bound. Heaps not yet used in this function are marked dirty so that their
 // first use does not see the entry version.
 func (e *Enc) havocHeaps(st *State, mods map[string]bool, top bool, bound string, frameFresh bool) {
-	rec := &dirtyRec{frame: frameFresh, bound: bound}
+	rec := newDirty(frameFresh, bound)
 	var names []string
 	if top {
 		for n := range st.heaps {
 			names = append(names, n)
 		}
-		st.allDirty = weaker(st.allDirty, rec)
+		if st.allDirty != nil {
+			st.allDirty = newDirty(st.allDirty.frame && frameFresh, st.allDirty.bound)
+		} else {
+			st.allDirty = rec
+		}
+		// a global havoc supersedes earlier per-name records
+		for k := range st.dirty {
+			delete(st.dirty, k)
+		}
 	} else {
 		for n := range mods {
 			if strings.HasPrefix(n, "ghost:") || strings.HasPrefix(n, "$") {
@@ -407,6 +415,20 @@ func (e *Enc) resolveLocal(f *frame, b *ssa.BasicBlock, name string, atHead bool
 	for i, p := range f.fn.Params {
 		if p.Name() == name {
 			return f.params[i], true
+		}
+	}
+	// the variable exists in the function but has no value that dominates this
+	// point (it belongs to another branch): an arbitrary value of its type.
+	for _, bb := range f.fn.Blocks {
+		for _, ins := range bb.Instrs {
+			if dr, ok := ins.(*ssa.DebugRef); ok {
+				if id, ok := dr.Expr.(*ast.Ident); ok && id.Name == name {
+					if v, isVar := dr.Object().(*types.Var); isVar {
+						nv := e.freshVal(shapeOf(v.Type()), "undef_"+sanitize(name))
+						return nv, true
+					}
+				}
+			}
 		}
 	}
 	return Val{}, false
